@@ -199,3 +199,12 @@ package kfmt
 //@   ensures wf: wfRB(&earlyPrintBuffer)
 //@   ensures drained: !isnil(w) ==> rlen(&earlyPrintBuffer) == 0 && outLen == old(outLen) + old(rlen(&earlyPrintBuffer)) && forall(j, int, out[j] == ite(inLog(j, old(outLen), old(rlen(&earlyPrintBuffer))), old(view(&earlyPrintBuffer, j - old(outLen))), old(out)[j]))
 //@   ensures nosink: isnil(w) ==> outLen == old(outLen) && out == old(out) && earlyPrintBuffer.rIndex == old(earlyPrintBuffer.rIndex)
+
+// PrefixWriter.Write, safety only (C16): for any input and any behaviour of the sink the slice
+// expressions stay inside p (automatic obligations), given the loop invariant below; the
+// placement of the prefix in the output is NOT specified here
+//@ func (w *PrefixWriter) Write(p []byte) (n int, err error)
+//@   property C16
+//@   requires w != nil && !isnil(w.Sink)
+//@   modifies w.bytesAfterPrefix, outLen, out
+//@   loop 1 (curIndex < len(p)) invariant 0 <= startIndex && startIndex <= curIndex && curIndex <= len(p)
